@@ -317,4 +317,55 @@ theorem C04_end_to_end_root (c : Trace.Code) (O : Trace.Options) (ext : Ext) (t 
   exact ⟨_, arrs, hft, htm,
     C04_roundtrip_bulk_root c O ext t F vs _ arrs h0 hfrag hroot hne hwt hsc (length_of_cap ext _ vs hcap) hft htm⟩
 
+/-- **the round trip is literally the identity, every supported root kind**, where no `Option` sits directly over a nullable
+position (`plainOpt`): `C04_roundtrip_identity` for every root -/
+theorem C04_roundtrip_identity_root (c : Trace.Code) (O : Trace.Options) (ext : Ext) (t : Ty) (F : Fields) (vs : List Val)
+    (fields : List Field) (arrs : List Arr)
+    (h0 : O.overwrites = []) (hfrag : fragE t = true) (hplain : plainOpt t = true)
+    (hroot : rootCols (viewOpts O) t = some F) (hne : F ≠ .nil)
+    (hwt : ∀ v ∈ vs, wt t v = true)
+    (hsc : ∀ v ∈ vs, inScopeO (viewOpts O) t v = true)
+    (hlen : vs.length ≤ 9223372036854775807)
+    (hft : Trace.fromType c O (toTraceTy t) = .ok fields)
+    (htm : toMarrow ext fields (vs.map (ser t)) = .ok arrs) :
+    readAll (toTarget t) fields arrs = .ok (vs.map (dvalOf t)) := by
+  rw [C04_roundtrip_bulk_root c O ext t F vs fields arrs h0 hfrag hroot hne hwt hsc hlen hft htm]
+  congr 1
+  apply List.map_congr_left
+  intro v hv
+  rw [norm_eq_self _ v hplain (hwt v hv)]
+
+/-- the bulk round trip for traced schemas WITHOUT Dictionary columns, every supported root kind: no size bound on the
+batch (`C04_roundtrip_bulk_plain` for every root; `Read.physical` from `physicalFields_of_wf` / `rootCols_plain`) -/
+theorem C04_roundtrip_bulk_plain_root (c : Trace.Code) (O : Trace.Options) (ext : Ext) (t : Ty) (F : Fields) (vs : List Val)
+    (fields : List Field) (arrs : List Arr)
+    (h0 : O.overwrites = []) (hd : O.string_dictionary_encoding = false) (he : O.enums_without_data_as_strings = false)
+    (hfrag : fragE t = true) (hroot : rootCols (viewOpts O) t = some F) (hne : F ≠ .nil)
+    (hwt : ∀ v ∈ vs, wt t v = true)
+    (hsc : ∀ v ∈ vs, inScopeO (viewOpts O) t v = true)
+    (hft : Trace.fromType c O (toTraceTy t) = .ok fields)
+    (htm : toMarrow ext fields (vs.map (ser t)) = .ok arrs) :
+    readAll (toTarget t) fields arrs = .ok (vs.map fun v => dvalOf t (norm t v)) := by
+  have hfields := C04_fromType_fields_root c O h0 t F hroot fields hft
+  obtain ⟨hacc, hnew, hread⟩ := C04_roundtrip_core_root O ext t F vs fields arrs hfrag hroot hne hwt hsc
+    (fun h => physicalFields_of_wf _ F _ h (rootCols_plain (o := viewOpts O) hd he hroot)) hfields htm
+  exact readAll_of_core t vs fields arrs hacc hnew hread
+
+/-- **C04 end to end at the codec models, every supported root kind** (what the driver runs): an instance of
+`C04_end_to_end_root`, which has no hypothesis about `ext` -/
+theorem C04_end_to_end_codec_root (f32Str f64Str : Nat → String) (cast : Nat → Int → Bool → Nat → Option (Bool × Int))
+    (c : Trace.Code) (O : Trace.Options) (t : Ty) (F : Fields) (vs : List Val)
+    (h0 : O.overwrites = []) (hfrag : fragE t = true) (hsz : sized t = true)
+    (hroot : rootCols (viewOpts O) t = some F) (hne : F ≠ .nil)
+    (hwt : ∀ v ∈ vs, wt t v = true)
+    (hsc : ∀ v ∈ vs, inScopeO (viewOpts O) t v = true)
+    (hw : Trace.Spec.walkable O "$" (toTraceTy t) = true)
+    (hm : mappable (viewOpts O) t = true)
+    (hb : Trace.Spec.passes (toTraceTy t) ≤ O.from_type_budget)
+    (hcap : ((vs.map (ser t)).map (vsize (Props.C16.codecExt f32Str f64Str cast))).sum ≤ 2147483647) :
+    ∃ fields arrs, Trace.fromType c O (toTraceTy t) = .ok fields ∧
+      toMarrow (Props.C16.codecExt f32Str f64Str cast) fields (vs.map (ser t)) = .ok arrs ∧
+      readAll (toTarget t) fields arrs = .ok (vs.map fun v => dvalOf t (norm t v)) :=
+  C04_end_to_end_root c O _ t F vs h0 hfrag hsz hroot hne hwt hsc hw hm hb hcap
+
 end SaModel.Props.C04
